@@ -2283,6 +2283,76 @@ FLOORS = {'quick': {'nontrivial': 290000,
                                     'build:find-resolves-into-run-of-2+-adds': 318000,
                                     'build:first-files-paragraph-added-to-license-only-document': 13600}}}
 
+# Round-5 classes: LONG pattern lists in paragraphs built through the API ('long:*', 'long-find:*', M.long.*) and
+# whitespace-separated documents parsed with Copyright(..., strict=False) ('ws-ns:*', 'ws-ns-find:*', M.ws-ns.*); also the
+# totals those classes feed (M.match, M.error, M.stale, nontrivial*).  ~50% of the measured values (quick: minimum over
+# seeds 0-3; thorough: seed 0).  A run that never builds a long list, never re-assigns / dumps / re-parses one, or never
+# parses non-strictly is INCONCLUSIVE, not held.
+_R5_FLOORS = {
+    'quick': {
+        'nontrivial': 320000,
+        'M': {
+            'M.match': 520000, 'M.error': 14000, 'M.stale': 14000, 'M.long.files': 2400, 'M.long.find': 14000,
+            'M.long.reparse': 450, 'M.long.reparse.find': 10000, 'M.ws-ns.order': 720, 'M.ws-ns.find': 3600},
+        'C': {
+            'nontrivial:near-miss': 220000, 'nontrivial:hit': 170000, 'long:documents': 450,
+            'long:lists-beyond-one-text-line': 780, 'long:joined-length:72-88': 79, 'long:joined-length:89-199': 200,
+            'long:joined-length:200-399': 340, 'long:joined-length:400+': 220,
+            'long:list-with-single-pattern-of-100+-characters': 260, 'long:paragraph-via:create': 560,
+            'long:paragraph-via:assign': 210, 'long:paragraph-via:assign-in-doc': 220, 'long:handed-over-as:list': 790,
+            'long:handed-over-as:tuple': 190, 'long:patterns-with-hyphen': 4600, 'long:patterns-with-wildcard': 1600,
+            'long:name:whole-hyphenated-pattern': 2600, 'long:name:whole-single-long-pattern': 230,
+            'long:name:hyphen-fragment': 4300, 'long:name:width-fragment': 420, 'long:name:glued-neighbours': 1100,
+            'long:re-assigned-lists': 190, 'long:stale-distinguishing-name': 430,
+            'long:matches-observed/built-through-api': 24000, 'long:matches-observed/re-assigned': 11000,
+            'long:matches-observed/after-dump-and-reparse': 24000, 'long-find:several-paragraphs-match': 1900,
+            'long-find:resolves-to-paragraph-with-list-beyond-one-text-line': 3000,
+            'long-find:last-of-several-matching-is-a-long-list': 780, 'long:dump-returned': 210,
+            'long:dump-written-to-file-object': 220, 'long:reparse-strict': 310, 'long:reparse-strict=False': 130,
+            'long:oracle-cross-checked-with-distance-dp': 4700, 'ws-ns:documents': 720, 'ws-ns:sep:header/Files': 400,
+            'ws-ns:sep:Files/Files': 590, 'ws-ns:sep:Files/License': 390, 'ws-ns:sep:License/Files': 370,
+            'ws-ns:run:2+-lines': 1800, 'ws-ns:run:empty-line-first': 900, 'ws-ns:run:whitespace-line-first-then-empty': 760,
+            'ws-ns:longest-separator-run:3-lines': 310, 'ws-ns:longest-separator-run:4-lines': 280,
+            'ws-ns:source-family:list': 300, 'ws-ns:source-family:file': 390, 'ws-ns:matches-observed': 9200,
+            'ws-ns-find:several-paragraphs-match': 930,
+            'ws-ns-find:resolves-to-paragraph-next-to-whitespace-only-separator': 2300,
+            'ws-build:documents-parsed-with-strict=False': 95},
+    },
+    'thorough': {
+        'nontrivial': 2700000,
+        'M': {
+            'M.match': 23000000, 'M.error': 840000, 'M.stale': 550000, 'M.long.files': 120000, 'M.long.find': 770000,
+            'M.long.reparse': 17000, 'M.long.reparse.find': 520000, 'M.ws-ns.order': 28000, 'M.ws-ns.find': 130000},
+        'C': {
+            'nontrivial:near-miss': 9500000, 'nontrivial:hit': 7200000, 'long:documents': 17000,
+            'long:lists-beyond-one-text-line': 39000, 'long:joined-length:72-88': 4300, 'long:joined-length:89-199': 5000,
+            'long:joined-length:200-399': 13000, 'long:joined-length:400+': 20000,
+            'long:list-with-single-pattern-of-100+-characters': 14000, 'long:paragraph-via:create': 27000,
+            'long:paragraph-via:assign': 11000, 'long:paragraph-via:assign-in-doc': 11000, 'long:handed-over-as:list': 39000,
+            'long:handed-over-as:tuple': 11000, 'long:patterns-with-hyphen': 290000, 'long:patterns-with-wildcard': 100000,
+            'long:name:whole-hyphenated-pattern': 150000, 'long:name:whole-single-long-pattern': 11000,
+            'long:name:hyphen-fragment': 220000, 'long:name:width-fragment': 20000, 'long:name:glued-neighbours': 61000,
+            'long:re-assigned-lists': 7900, 'long:stale-distinguishing-name': 17000,
+            'long:matches-observed/built-through-api': 1500000, 'long:matches-observed/re-assigned': 720000,
+            'long:matches-observed/after-dump-and-reparse': 1500000, 'long-find:several-paragraphs-match': 110000,
+            'long-find:resolves-to-paragraph-with-list-beyond-one-text-line': 160000,
+            'long-find:last-of-several-matching-is-a-long-list': 45000, 'long:dump-returned': 9000,
+            'long:dump-written-to-file-object': 8900, 'long:reparse-strict': 12000, 'long:reparse-strict=False': 5400,
+            'long:oracle-cross-checked-with-distance-dp': 240000, 'ws-ns:documents': 28000, 'ws-ns:sep:header/Files': 15000,
+            'ws-ns:sep:Files/Files': 37000, 'ws-ns:sep:Files/License': 20000, 'ws-ns:sep:License/Files': 19000,
+            'ws-ns:run:2+-lines': 92000, 'ws-ns:run:empty-line-first': 46000,
+            'ws-ns:run:whitespace-line-first-then-empty': 39000, 'ws-ns:longest-separator-run:3-lines': 10000,
+            'ws-ns:longest-separator-run:4-lines': 14000, 'ws-ns:source-family:list': 12000, 'ws-ns:source-family:file': 15000,
+            'ws-ns:matches-observed': 480000, 'ws-ns-find:several-paragraphs-match': 46000,
+            'ws-ns-find:resolves-to-paragraph-next-to-whitespace-only-separator': 94000,
+            'ws-build:documents-parsed-with-strict=False': 2900},
+    },
+}
+for _t, _d in _R5_FLOORS.items():
+    FLOORS[_t]['nontrivial'] = _d['nontrivial']
+    FLOORS[_t]['monitors'].update(_d['M'])
+    FLOORS[_t]['counters'].update(_d['C'])
+
 LEVEL_TEXT = ('Runtime monitoring: seeded hostile pattern lists and near-miss names (literal expansions of the patterns with '
               '0..2 single-character edits), bounded-exhaustive sweeps of small pattern/name spaces, parsed and built '
               'documents with several Files paragraphs, and histories of `files` re-assignments are pushed through the live '
